@@ -254,8 +254,10 @@ class C05:
         if not call or not rets:
             raise AnalysisError("__safe_call_resolver: resolver call / `return <answer>` not found")
         # the last shape check: its 'passed' edge is the only way an unchanged answer may leave the validation
-        checks = [n for n in g.nodes if n.kind == "test" and any(isinstance(x, ast.Name) and x.id == ret for x in ast.walk(n.ast)) and
-                  ("isinstance(" in ast.unparse(n.ast) or "len(" in ast.unparse(n.ast) or "is_file_like(" in ast.unparse(n.ast) or "hasattr(" in ast.unparse(n.ast))]
+        def inspects(n):
+            # a test that hands the answer (or its first element) to a call: isinstance(ret, tuple), len(ret) != 2, is_file_like(ret[0])
+            return n.kind == "test" and any(isinstance(c, ast.Call) and any(isinstance(x, ast.Name) and x.id == ret for a in c.args for x in ast.walk(a)) for c in ast.walk(n.ast))
+        checks = [n for n in g.nodes if inspects(n)]
         default = [n for n in g.nodes if cfg_root(n) is not None and isinstance(cfg_root(n), ast.Assign) and isinstance(cfg_root(n).targets[0], ast.Name)
                    and cfg_root(n).targets[0].id == ret and isinstance(cfg_root(n).value, ast.Tuple)]
         if len(checks) < 3 or not default:
@@ -304,3 +306,7 @@ def run(ctx: Ctx, rep: Report, tier: str):
     from rules.C07 import C07 as _C07
     _alias(rep, ["C07.R4"], "C05.V13", "a file that is already in the way of a create is adopted silently only when its content is identical (same provider's hash of the bytes "
            "being uploaded, C07.R4); different content is left to the conflict path, so the resolver is consulted", 3, lambda: _C07(ctx, rep).r4())
+    from rules.common import split_contract
+    rep.rule("C05.V15", "conflicts are split the same way every time: SyncState.split moves the LOCAL half to a new entry and keeps the REMOTE half on the original "
+             "(so 'remote wins, local gets out of the way' means something), clears the moved half, marks both changed, resets both last-synced paths", 7)
+    split_contract(ctx, rep, "C05.V15")
